@@ -28,6 +28,10 @@ structure Site where
   /-- number of TEXT transformers the enclosing function applies to the member between reading it from the zip
       and handing it to the parser (`xmlpart = __fixXmlPart(xmlpart)` in `__loadxmlparts`); decode / encode excluded -/
   prep : Nat
+  /-- number of conditions on a MEDIA TYPE (in the enclosing function or a caller) that decide whether this site is
+      reached; the property holds for every kind of embedded object, so the model's dispatch has no media type and
+      this must be 0 (`dispatch_media_independent`) -/
+  mediaCond : Nat
 deriving DecidableEq, Repr
 
 end OdfModel.ParseSite
